@@ -114,7 +114,12 @@ def stored_form(rng, form, base, content, mtime):
 def run_case(seed, i, tier):
     rng = core.rng_for(seed, PROP, i)
     kind, base, content, msgs, opts, window = gen_case(rng, tier)
-    mtime = 1600000000
+    # modification times owe nothing to the content here (all of it carries full dates; year-less logs are C11's): the plain
+    # file, each stored file, and the gz header / tar member inside it get times of their own
+    span = (1_500_000_000, 1_700_000_000)
+    if msgs:
+        span = (msgs[0].instant // 1_000_000_000, msgs[-1].instant // 1_000_000_000)
+    mtime = world.mtime_around(rng, *span)
     cr = CaseResult()
     prng = core.rng_for(seed, PROP, i, "plan")
     plan = core.random_plan(prng, 1, budget=3_000_000)
@@ -142,8 +147,10 @@ def run_case(seed, i, tier):
     if len(content) > 2_000_000 and "bz2" in forms and kind == "journal":
         forms.remove("bz2")     # 8 MiB through the pure-Rust bzip2 decoder costs seconds; bz2 is covered by the other kinds
     tried = []
+    mtime_plain = mtime
     for form in forms:
-        name, data, descr = stored_form(rng, form, base, content, mtime)
+        mtime = world.mtime_around(rng, *span)
+        name, data, descr = stored_form(rng, form, base, content, world.mtime_around(rng, *span))
         this_ref = ref
         if form == "tar" and kind == "text" and rng.random() < 0.4:
             # two log members in one archive == the two plain files named in member order
@@ -155,13 +162,13 @@ def run_case(seed, i, tier):
             fmt = rng.choice(("ustar", "gnu", "pax"))
             data = world.to_tar([(rng.choice(("", "d/")) + n_, c_, mtime) for (n_, c_) in pair], fmt)
             name, descr = "c_arch.tar", {"kind": "tar", "format": fmt, "members": 2, "member_path": "two_log_members", "order": [n_ for (n_, _) in pair]}
-            ref2_scn = core.Scenario([core.FileSpec(n_, c_, mtime) for (n_, c_) in pair], opts + [n_ for (n_, _) in pair], None, "UTC")
+            ref2_scn = core.Scenario([core.FileSpec(n_, c_, mtime_plain) for (n_, c_) in pair], opts + [n_ for (n_, _) in pair], None, "UTC")
             this_ref = core.execute(ref2_scn, plan)
             cr.runs += 1
             cr.probes["tar_with_two_log_members"] += 1
             if mergecheck.evaluate(this_ref, None, check_protocol=False):
                 this_ref = ref
-                name, data, descr = stored_form(rng, form, base, content, mtime)
+                name, data, descr = stored_form(rng, form, base, content, world.mtime_around(rng, *span))
         scn = core.Scenario([core.FileSpec(name, data, mtime)], opts + [name], None, "UTC")
         res = core.execute(scn, plan)
         tr = res.trace
